@@ -621,6 +621,11 @@ func (c *SpecCtx) call(e *SExpr) Val {
 			return scalar(c.eval(args[0]).T, Ite(Ge(a, zero), a, Neg(a)))
 		case "real":
 			return scalar(tFloat, ToReal(c.evalTerm(args[0])))
+		case "toint": // integer part of a non-negative real (floor)
+			return intVal(App("to_int", SInt, ToReal(c.evalTerm(args[0]))))
+		case "strpadleft": // astikit.StrPad(s, ch, n, PadLeft)
+			DeclareFun("strpadleft", []Sort{SStr, SInt, SInt}, SStr)
+			return scalar(tString, App("strpadleft", SStr, c.evalTerm(args[0]), c.evalTerm(args[1]), c.evalTerm(args[2])))
 		case "has": // has(m, k): key k in map m
 			m := c.eval(args[0])
 			k := c.evalTerm(args[1])
@@ -680,6 +685,14 @@ func (c *SpecCtx) call(e *SExpr) Val {
 			}
 			n.st = m
 			return n.eval(args[1])
+		case "fprnd": // float64 rounding of a real value (rounding-error model)
+			return scalar(tFloat, c.ex.rounded(c.st, ToReal(c.evalTerm(args[0]))))
+		case "fptrunc": // float64 -> int64 conversion (truncation toward zero)
+			saved := c.ex.floatModel
+			c.ex.floatModel = "rounding-error"
+			r := c.ex.truncToInt(c.st, ToReal(c.evalTerm(args[0])))
+			c.ex.floatModel = saved
+			return intVal(r)
 		case "emptymap": // ghost integer map (total, default 0)
 			return Val{T: tInt, C: []*Term{zeroOfSort(SArr(SInt, SInt))}}
 		case "mapstore":
